@@ -190,6 +190,25 @@ def path_agreement(ctx, P, py, rule="NEWICK-PATHS"):
            "precision defaults (with `is None`) to 0 iff discrete_time else 17")
     ctx.ob(rule, "py|path-select", "if include_branch_lengths and node_labels in [LEGACY_MS_LABELS, None]:" in s, m.loc(fa), "fast path iff lengths included and labels default/legacy")
     ctx.ob(rule, "py|fast-args", "legacy_ms_labels=node_labels == LEGACY_MS_LABELS" in s and "root=root" in s and "precision=precision" in s, m.loc(fa), "fast path receives root, precision, legacy flag")
+    # the buffer handed to the C path is sized from the widest branch length that can be printed, i.e. from a DIFFERENCE of times
+    # (root time minus the smallest node time), not from the root's absolute time: node times may be negative
+    ff = py.func("trees", "Tree._as_newick_fast")
+    logs = [c for c in ast.walk(ff) if isinstance(c, ast.Call) and ast.unparse(c.func) in ("math.log10", "np.log10", "numpy.log10")]
+
+    def expanded(e, depth=3):
+        t = ast.unparse(e)
+        if depth > 0:
+            for nme in [x.id for x in ast.walk(e) if isinstance(x, ast.Name)]:
+                for a_ in ast.walk(ff):
+                    if isinstance(a_, ast.Assign) and any(isinstance(t_, ast.Name) and t_.id == nme for t_ in a_.targets):
+                        t += " " + expanded(a_.value, depth - 1)
+        return t
+    width_args = [expanded(c.args[0]) for c in logs if c.args and "num_nodes" not in ast.unparse(c.args[0])]
+    okw = bool(width_args) and all(re.search(r"self\.time\(root\)\s*-", w) and re.search(r"min", w) for w in width_args)
+    ctx.ob(rule, "py|fast-buffer-width", okw, m.loc(logs[0]) if logs else m.loc(ff),
+           "digits of a branch length are estimated from time(root) minus the smallest node time" if okw else
+           "the buffer for the C path is sized from `%s`: a branch length is a difference of times, and with negative node times it "
+           "has more digits than the root's time (TSK_ERR_BUFFER_OVERFLOW on the fast path only)" % (width_args[0][:80] if width_args else "?"))
     tm = py.mod("text_formats")
     bn = py.func("text_formats", "_build_newick")
     # the ':' branch length append must be inside the loop over children
